@@ -11,12 +11,14 @@ import (
 // after a successful release the numbers are published as unused; after a failed one they may have been published all the same (a
 // timeout), and on the catch-up path of nextSequenceGreaterThan they are all below the sequence the caller must exceed. So on the
 // failure edge of such a release no hand-out (_nextSequence) and no success return may be reached before last is set to max.
-func c07R6(c *Ctx, r *Report) {
-	r.Rule("C07-R6", "E2 pathrules (failure edge)", "after a release of the allocator's whole remaining window (releaseSequenceRange(last+1, max), directly or through _releaseCurrentBatch) no hand-out and no success return is reachable on the failure edge before the window is abandoned (last = max)", 3)
+func c07R6(c *Ctx, r *Report) { c07R6For(c, r, "C07-R6") }
+
+func c07R6For(c *Ctx, r *Report, rule string) {
+	r.Rule(rule, "E2 pathrules (failure edge)", "after a release of the allocator's whole remaining window (releaseSequenceRange(last+1, max), directly or through _releaseCurrentBatch) no hand-out and no success return is reachable on the failure edge before the window is abandoned (last = max)", 3)
 	last := c.Field("db.sequenceAllocator", "last")
 	max := c.Field("db.sequenceAllocator", "max")
 	if last == nil || max == nil {
-		r.Fail("C07-R6", "anchor db.sequenceAllocator.last/max", "-", "field not found")
+		r.Fail(rule, "anchor db.sequenceAllocator.last/max", "-", "field not found")
 		return
 	}
 	isLoadOf := func(v ssa.Value, f interface{ Name() string }) bool {
@@ -115,10 +117,10 @@ func c07R6(c *Ctx, r *Report) {
 			if hit != nil {
 				detail = "reaches " + c.Pos(hit.Pos()) + " with the window still open: a sequence of a batch whose release failed (and may have been applied) is handed out — on the catch-up path a number not greater than the one the caller must exceed, so the document's sequence goes backwards and feeds resuming above it never deliver the update"
 			}
-			r.Check("C07-R6", construct, c.Pos(call.Pos()), hit == nil, "every failure continuation stores last = max, or returns the error", detail)
+			r.Check(rule, construct, c.Pos(call.Pos()), hit == nil, "every failure continuation stores last = max, or returns the error", detail)
 		}
 	}
 	if n == 0 {
-		r.Fail("C07-R6", "window-release sites", "-", "no release of the allocator's remaining window found")
+		r.Fail(rule, "window-release sites", "-", "no release of the allocator's remaining window found")
 	}
 }
